@@ -572,6 +572,9 @@ func (ex *Exec) prepareCall(fr *frame, call *ssa.CallCommon) (Value, []Value) {
 			}
 			return &rtypeMethod{name: call.Method.Name()}, args
 		}
+		if recv.T == nativeErrorType && call.Method.Name() == "Error" {
+			return &constFn{recv.V}, nil
+		}
 		f := ex.Pr.Prog.LookupMethod(recv.T, call.Method.Pkg(), call.Method.Name())
 		if f == nil {
 			ex.abort("method set of %v has no %s", recv.T, call.Method)
@@ -587,9 +590,15 @@ func (ex *Exec) prepareCall(fr *frame, call *ssa.CallCommon) (Value, []Value) {
 
 type rtypeMethod struct{ name string }
 
+// constFn is a callable that returns a fixed value (Error() of a native error).
+type constFn struct{ v Value }
+
 func (ex *Exec) doCall(fr *frame, fn Value, args []Value) Value {
 	if m, ok := fn.(*rtypeMethod); ok {
 		return ex.rtypeCall(fr, m.name, args)
+	}
+	if c, ok := fn.(*constFn); ok {
+		return c.v
 	}
 	return ex.call(fr, fn, args)
 }
